@@ -1,16 +1,21 @@
 (* C08 - connection behaviour is independent of segmentation and completion timing.
-   The full statement - for every schedule the byte-level behaviour (M2, Conn/Sem2.v: the
-   model of receive_packet's two phases under tokio's select!) equals the frame-level
-   behaviour M1 applied to the reader's output - is FALSE of the faithful model and of the
-   code: C08_refinement_refuted, with the witnesses of the known classes K1 (a raced adapter
-   call completes inside a frame) and K4 (a keep-alive tick falls due inside a frame).
-   Proved: the byte-level reader (Conn/Reader.v, the framing of receive_packet) produces the
-   same frames however the client's byte stream is segmented; and every M2 trace, on every
-   schedule (the disturbed ones included), satisfies the monitors of C01/C02/C03/C06/C10
-   and never ends in a panic (Props/C01.v ... C10.v, C04.v: the *_bytes theorems). *)
-From Passage Require Import Lib.Bytes Codec.VarInt Conn.Types Conn.Prog Conn.Sem1 Conn.Sem2Old Conn.Reader Conn.ReaderProofs
-  Conn.Sem2Witness Conn.SendQueue Conn.SendQueueProofs.
-Import OldM2.
+   After the repair of receive_packet (the frame being received lives in the connection, not in
+   a future that select! drops) the byte-level behaviour (M2, Conn/Sem2.v) IS the frame-level
+   behaviour M1 applied to the reader's output: C08_refines, for every configuration, environment
+   and schedule - however the client's bytes are cut into segments, wherever keep-alive ticks and
+   completions of raced adapter calls fall - under two decidable conditions on the schedule, neither
+   of which can be dropped (Conn/Refine2Defs.v: unsorted_in_frame_differs, stops_in_frame_differs):
+   byte times do not decrease inside a frame, and the stream does not stop inside a frame without
+   an end of stream (without the second one: equality up to the instant of a final hang).
+   The handler before the repair (Conn/Sem2Old.v) did NOT have this property: the witnesses of the
+   classes K1 (a raced adapter call completes inside a frame) and K4 (a keep-alive tick falls due
+   inside a frame) are kept as C08_old_*.
+   Also proved: the byte-level reader (Conn/Reader.v, the framing of receive_packet) produces the
+   same frames however the byte stream is segmented; the write side keeps frames intact
+   (Conn/SendQueue.v); and every M2 trace, on every schedule, satisfies the monitors of
+   C01/C02/C03/C06/C10 and never ends in a panic (Props/C01.v ... C10.v, C04.v: the *_bytes theorems). *)
+From Passage Require Import Lib.Bytes Codec.VarInt Conn.Types Conn.Prog Conn.Sem1 Conn.Sem2 Conn.Sem2Old Conn.Reader Conn.ReaderProofs
+  Conn.Sem2Witness Conn.Refine2Defs Conn.Refine2Proofs Conn.SendQueue Conn.SendQueueProofs.
 
 (* feeding the reader piecewise is feeding it the concatenation *)
 Theorem C08_reader_monoid : forall max a st b,
@@ -26,44 +31,116 @@ Proof. exact segmentation_independent. Qed.
 
 (* each input frame is produced exactly once and complete: the reader's output over the
    concatenation of canonically framed messages is exactly those messages *)
-Example C08_each_frame_once :
+Example C08_each_frame_once_reader :
   snd (feed_segs 10000 RIdle [hx "03"; hx "00aa"; hx "bb0205"; hx "7f"])
   = [EvFrame 0 [170; 187]; EvFrame 5 [127]].
 Proof. vm_compute. reflexivity. Qed.
 
-(* ---- the known classes, as closed terms ---- *)
+(* ---- THE REFINEMENT: the byte level is the frame level ----
+   [frame_sorted max s] (Conn/Refine2Defs.v, decidable): the arrival times of the bytes of each
+   frame do not decrease (between frames they may; nothing is required after a framing error);
+   [ends_clean max s]: the schedule contains an end of stream, or its bytes end at a frame boundary.
+   No condition on the segmentation, on ticks, on completions, on the configuration, the
+   environment or the oracles.  Same events, same values, same instants, same final outcome. *)
+Theorem C08_refines : forall o cfg e (s : segs),
+  frame_sorted (cf_max_len cfg) s = true -> ends_clean (cf_max_len cfg) s = true ->
+  run2 o cfg e s = run1 o cfg e (frames_of (cf_max_len cfg) s).
+Proof. exact refines. Qed.
+
+(* in particular for every schedule with non-decreasing segment times *)
+Theorem C08_refines_sorted : forall o cfg e (s : segs),
+  sorted s = true -> ends_clean (cf_max_len cfg) s = true ->
+  run2 o cfg e s = run1 o cfg e (frames_of (cf_max_len cfg) s).
+Proof. exact refines_sorted. Qed.
+
+(* a stream that stops inside a frame: the same, except for the instant at which a handler that
+   waits for ever (receive_packet without keep-alive) is declared hung *)
+Theorem C08_refines_mod_hang : forall o cfg e (s : segs),
+  frame_sorted (cf_max_len cfg) s = true ->
+  unhang (run2 o cfg e s) = unhang (run1 o cfg e (frames_of (cf_max_len cfg) s)).
+Proof. exact refines_mod_hang. Qed.
+
+(* ... and exactly the same whenever the frame-level run does not hang *)
+Theorem C08_refines_unless_hang : forall o cfg e (s : segs),
+  frame_sorted (cf_max_len cfg) s = true ->
+  hangs (run1 o cfg e (frames_of (cf_max_len cfg) s)) = false ->
+  run2 o cfg e s = run1 o cfg e (frames_of (cf_max_len cfg) s).
+Proof. exact refines_unless_hang. Qed.
+
+(* every frame is consumed at most once, in order and complete: the frames the byte-level
+   handler consumes are a prefix of the frames the reader cuts out of the stream *)
+Theorem C08_each_frame_once : forall o cfg e (s : segs),
+  frame_sorted (cf_max_len cfg) s = true ->
+  is_prefix (recvs (run2 o cfg e s)) (in_frames (frames_of (cf_max_len cfg) s)).
+Proof. exact each_frame_once. Qed.
+
+(* every theorem about all frame-level runs transfers to the byte-level runs *)
+Theorem C08_transfer : forall (Q : trace -> Prop) o cfg e,
+  (forall ib, Q (run1 o cfg e ib)) ->
+  forall s : segs, frame_sorted (cf_max_len cfg) s = true -> ends_clean (cf_max_len cfg) s = true -> Q (run2 o cfg e s).
+Proof. exact transfer. Qed.
+
+(* non-vacuity: the schedules that broke the old handler (below) satisfy the conditions and now
+   give equal runs; the split Keep Alive echo of K1 ends in a Transfer *)
+Example C08_repaired_classes :
+  run2 w_o w_cfg w_e k1_split = run1 w_o w_cfg w_e (frames_of (cf_max_len w_cfg) k1_split)
+  /\ run2 w_o w_cfg w_e k4_header = run1 w_o w_cfg w_e (frames_of (cf_max_len w_cfg) k4_header)
+  /\ run2 w_o w_cfg w_e k4_prefix_split = run1 w_o w_cfg w_e (frames_of (cf_max_len w_cfg) k4_prefix_split)
+  /\ last_end (run2 w_o w_cfg w_e k1_split) = Some OOk
+  /\ sent_ids (run2 w_o w_cfg w_e k1_split) = [5; 1; 2; 10; 11]
+  /\ frame_sorted (cf_max_len w_cfg) k1_split = true /\ ends_clean (cf_max_len w_cfg) k1_split = true
+  /\ frame_sorted (cf_max_len w_cfg) k4_prefix_split = true /\ ends_clean (cf_max_len w_cfg) k4_prefix_split = true
+  /\ frame_sorted (cf_max_len w_cfg) k4_header = true
+  /\ hangs (run1 w_o w_cfg w_e (frames_of (cf_max_len w_cfg) k4_header)) = false.
+Proof. vm_compute. repeat split; reflexivity. Qed.
+
+(* neither condition can be dropped *)
+Example C08_conditions_needed :
+  (frame_sorted (cf_max_len w_cfg) unsorted_in_frame = false /\ ends_clean (cf_max_len w_cfg) unsorted_in_frame = true
+   /\ unhang (run2 w_o w_cfg w_e unsorted_in_frame)
+      <> unhang (run1 w_o w_cfg w_e (frames_of (cf_max_len w_cfg) unsorted_in_frame)))
+  /\ (frame_sorted (cf_max_len w_cfg) stops_in_frame = true /\ ends_clean (cf_max_len w_cfg) stops_in_frame = false
+      /\ run2 w_o w_cfg w_e stops_in_frame <> run1 w_o w_cfg w_e (frames_of (cf_max_len w_cfg) stops_in_frame)).
+Proof.
+  split.
+  - destruct unsorted_in_frame_differs as (H1 & H2 & _ & H3). repeat split; assumption.
+  - destruct stops_in_frame_differs as (H1 & H2 & H3 & H4 & _). split; [exact H1|]. split; [exact H2|].
+    intros E. rewrite E, H4 in H3. discriminate H3.
+Qed.
+
+(* ---- the handler BEFORE the repair (Conn/Sem2Old.v): the known classes, as closed terms ---- *)
 
 (* K1: the same bytes; delivered whole the client is transferred, delivered as 5 + 5 bytes
-   around the instant discovery completes the connection ends with an illegal frame length *)
-Theorem C08_K1_witness :
+   around the instant discovery completes the connection ended with an illegal frame length *)
+Theorem C08_old_K1_witness :
   concat (map (fun x => match snd x with Some b => b | None => [] end) k1_whole)
   = concat (map (fun x => match snd x with Some b => b | None => [] end) k1_split)
-  /\ last_end (run2 w_o w_cfg w_e k1_whole) = Some OOk
-  /\ last_end (run2 w_o w_cfg w_e k1_split) = Some (OErr KIllegalLen)
+  /\ last_end (OldM2.run2 w_o w_cfg w_e k1_whole) = Some OOk
+  /\ last_end (OldM2.run2 w_o w_cfg w_e k1_split) = Some (OErr KIllegalLen)
   /\ last_end (run1 w_o w_cfg w_e (frames_of (cf_max_len w_cfg) k1_split)) = Some OOk.
 Proof. vm_compute. repeat split; reflexivity. Qed.
 
-(* K4, deferral: after a frame header declaring 10000 bytes the handler sends no Keep Alive
-   and never times the client out, where the frame-level behaviour is Keep Alive + timeout *)
-Theorem C08_K4_deferral_witness :
-  last_end (run2 w_o w_cfg w_e k4_header) = Some OHang
-  /\ sent_ids (run2 w_o w_cfg w_e k4_header) = [5; 1; 2]
+(* K4, deferral: after a frame header declaring 10000 bytes the old handler sent no Keep Alive
+   and never timed the client out, where the frame-level behaviour is Keep Alive + timeout *)
+Theorem C08_old_K4_deferral_witness :
+  last_end (OldM2.run2 w_o w_cfg w_e k4_header) = Some OHang
+  /\ sent_ids (OldM2.run2 w_o w_cfg w_e k4_header) = [5; 1; 2]
   /\ last_end (run1 w_o w_cfg w_e (frames_of (cf_max_len w_cfg) k4_header)) = Some (OErr KMissedKA)
   /\ sent_ids (run1 w_o w_cfg w_e (frames_of (cf_max_len w_cfg) k4_header)) = [5; 1; 2; 4; 2].
 Proof. vm_compute. repeat split; reflexivity. Qed.
 
-(* K4, length prefix: a tick between the two bytes of a length prefix discards the first *)
-Theorem C08_K4_prefix_witness :
-  sent_ids (run2 w_o w_cfg w_e k4_prefix_whole) = [0]
-  /\ sent_ids (run2 w_o w_cfg w_e k4_prefix_split) = []
+(* K4, length prefix: a tick between the two bytes of a length prefix discarded the first *)
+Theorem C08_old_K4_prefix_witness :
+  sent_ids (OldM2.run2 w_o w_cfg w_e k4_prefix_whole) = [0]
+  /\ sent_ids (OldM2.run2 w_o w_cfg w_e k4_prefix_split) = []
   /\ sent_ids (run1 w_o w_cfg w_e (frames_of (cf_max_len w_cfg) k4_prefix_split)) = [0].
 Proof. vm_compute. repeat split; reflexivity. Qed.
 
-Theorem C08_refinement_refuted :
-  ~ (forall o cfg e segs, last_end (run2 o cfg e segs) = last_end (run1 o cfg e (frames_of (cf_max_len cfg) segs))).
+Theorem C08_old_refinement_refuted :
+  ~ (forall o cfg e segs, last_end (OldM2.run2 o cfg e segs) = last_end (run1 o cfg e (frames_of (cf_max_len cfg) segs))).
 Proof.
   intros H.
-  destruct C08_K1_witness as (_ & _ & H2 & H1).
+  destruct C08_old_K1_witness as (_ & _ & H2 & H1).
   pose proof (eq_trans (eq_sym H2) (eq_trans (H w_o w_cfg w_e k1_split) H1)) as E. discriminate E.
 Qed.
 
@@ -92,9 +169,15 @@ Print Assumptions C08_frames_intact.
 Print Assumptions C08_wire_is_prefix.
 Print Assumptions C08_drained_complete.
 Print Assumptions C08_old_send_tears.
+Print Assumptions C08_refines.
+Print Assumptions C08_refines_sorted.
+Print Assumptions C08_refines_mod_hang.
+Print Assumptions C08_refines_unless_hang.
+Print Assumptions C08_each_frame_once.
+Print Assumptions C08_transfer.
 Print Assumptions C08_reader_monoid.
 Print Assumptions C08_segmentation_independent.
-Print Assumptions C08_K1_witness.
-Print Assumptions C08_K4_deferral_witness.
-Print Assumptions C08_K4_prefix_witness.
-Print Assumptions C08_refinement_refuted.
+Print Assumptions C08_old_K1_witness.
+Print Assumptions C08_old_K4_deferral_witness.
+Print Assumptions C08_old_K4_prefix_witness.
+Print Assumptions C08_old_refinement_refuted.
